@@ -172,6 +172,36 @@ pub fn param_extremes(ctx: &Ctx) {
             let _ = s.serialize();
         });
     }
+    for lg in 0u8..=63 {
+        case(format!("FrequentItemsSketch::epsilon_for_lg({lg}) / apriori_error"), &mut || {
+            use datasketches::frequencies::FrequentItemsSketch;
+            let e = FrequentItemsSketch::<i64>::epsilon_for_lg(lg);
+            assert!(e > 0.0 && e <= 3.5, "epsilon_for_lg({lg}) = {e}");
+            for w in [0i64, 1, 1 << 40, i64::MAX] {
+                let a = FrequentItemsSketch::<i64>::apriori_error(lg, w);
+                assert!(a >= 0.0 && a.is_finite(), "apriori_error({lg}, {w}) = {a}");
+            }
+        });
+    }
+    // Bloom compatibility predicate guards the panicking set operations
+    case("BloomFilter::is_compatible decides exactly when union/intersect are allowed".to_string(), &mut || {
+        use datasketches::bloom::BloomFilterBuilder;
+        let mk = |bits: u64, h: u16, seed: u64| BloomFilterBuilder::with_size(bits, h).seed(seed).build();
+        let base = mk(128, 3, 7);
+        for (bits, h, seed) in [(128u64, 3u16, 7u64), (65, 3, 7), (129, 3, 7), (128, 4, 7), (128, 3, 8), (1, 3, 7)] {
+            let mut o = mk(bits, h, seed);
+            o.insert(5u64);
+            let same = base.bits_used() == 0 && o.capacity() == base.capacity() && h == 3 && seed == 7;
+            assert_eq!(base.is_compatible(&o), same, "is_compatible for ({bits},{h},{seed})");
+            assert_eq!(o.is_compatible(&base), same);
+            if same {
+                let mut b = base.clone();
+                b.union(&o);
+                b.intersect(&o);
+                assert!(b.contains(&5u64));
+            }
+        }
+    });
     // HLL and CPC: every lg_k of the documented range
     for lg_k in 4u8..=21 {
         case(format!("HllSketch/HllUnion lg_k={lg_k}: new, 30 updates, bounds, round trip, union"), &mut || {
